@@ -5,6 +5,12 @@ HERE = os.path.dirname(os.path.dirname(os.path.abspath(__file__)))
 ALL = ["C%02d" % i for i in range(1, 21)]
 
 CHECKS = {
+ "C19": dict(
+   level="exploration",
+   technique="runtime monitoring: exhaustive enumeration of the real epoch-split function for n<=64 plus in-situ monitors on gauges / farmers / custody after every block of a seeded farming workload (exact big.Rat share oracle)",
+   text="(1) SplitTotalAmountPerEpoch on all n<=64, d in [n,n+200] and random pairs to 2^64: n entries summing to d. (2) Real pairs/pools/gauges (plain and master/child) created by transactions, 1-12 farmers, price regimes incl. huge farmed values, block gaps to 25 days with skipped epochs; every block: paid <= allocation of the epochs that ran, cumulative <= deposit, each farmer's payout <= share*allocation*(1+1e-12)+1, rewards custody >= remaining of active gauges + programmes.",
+   note="Share check only for asset decimals that are powers of ten and basic pools; swap fees fed by sends to the fee collector address; only the locker external-reward programme is exercised.",
+   design="§4 C19"),
  "C05": dict(
    level="exploration",
    technique="runtime monitoring of the real matching engine on generated crossing order books with fill-counting orders (observed fills), exact big.Int/big.Rat conservation and limit oracles; in-situ balance laws around ExecuteRequests",
